@@ -93,15 +93,13 @@ func newLockAnalysis(w *World) (*lockAnalysis, error) {
 		return nil, fmt.Errorf("anchor types PipelineRunner/PipelineJob/jobTask not found in the root package")
 	}
 	rs := structOf(la.runnerT)
+	var rwFields []string
 	for i := 0; i < rs.NumFields(); i++ {
 		f := rs.Field(i)
 		ts := f.Type().String()
 		switch ts {
 		case "sync.RWMutex":
-			if la.mxName != "" {
-				return nil, fmt.Errorf("runner has more than one sync.RWMutex field")
-			}
-			la.mxName = canonField(f)
+			rwFields = append(rwFields, canonField(f))
 		case "sync.WaitGroup":
 			la.wgName = canonField(f)
 		}
@@ -110,6 +108,36 @@ func newLockAnalysis(w *World) (*lockAnalysis, error) {
 				la.guardMap = append(la.guardMap, f.Type())
 			}
 		}
+	}
+	// the state lock: the runner's RWMutex; with several, the one most lock operations in the module address (a second one is a
+	// leaf mutex for some counters, see leafGuardedFields)
+	if len(rwFields) == 1 {
+		la.mxName = rwFields[0]
+	} else if len(rwFields) > 1 {
+		count := map[string]int{}
+		for _, fn := range w.ModFuncs {
+			allInstrs(fn, func(in ssa.Instruction) {
+				c := callCommonOf(in)
+				if c == nil || len(c.Args) == 0 {
+					return
+				}
+				if f := c.StaticCallee(); f == nil || f.Pkg == nil || f.Pkg.Pkg.Path() != "sync" {
+					return
+				}
+				if fa, ok := c.Args[0].(*ssa.FieldAddr); ok {
+					if n := namedOf(fa.X.Type()); n != nil && n.Obj() == la.runnerT.Obj() {
+						count[fieldName(fa.X.Type(), fa.Field)]++
+					}
+				}
+			})
+		}
+		best := ""
+		for _, f := range rwFields {
+			if best == "" || count[f] > count[best] {
+				best = f
+			}
+		}
+		la.mxName = best
 	}
 	if la.mxName == "" {
 		return nil, fmt.Errorf("runner has no sync.RWMutex field (state lock anchor unresolved)")
